@@ -182,3 +182,39 @@ Example C07_LA_dcr_complete_nonvacuous :
   valid_plan false (dcr_compile LD.cd LD.pd LD.nm LD.Pd (p_goals LD.Pd)) C06.LB.si [(20%N, [])] = true /\
   vt_map_back (dcr_table LD.cd LD.pd LD.nm LD.Pd) [(20%N, [])] = [(0%N, [])].
 Proof. split; [vm_compute; repeat constructor; intros []|]. repeat split; vm_compute; reflexivity. Qed.
+
+(* ---------------------------------------------------------------- Grounder (second Layer A round; model and hypotheses:
+   Props/C06.v).  Every valid plan of the original problem whose steps use parameter tuples the grounder enumerates
+   ([plan_in_tuples]: type-correct and not pruned by the static-fluent analysis) is the image under lift_action_instance of
+   a valid plan of the ground problem — same length, same states, no step lost (the code keeps effect-less ground
+   actions of instantaneous actions).  An instance without ground action is inapplicable: FALSE precondition
+   ([ground_pre_none], proved) or syntactically conflicting ground effects (hypothesis, = conclusion of
+   C37_conflict_drop_sound; it fails exactly in the findings C01-grounding-syntactic-conflict /
+   C07-grounder-syntactic-conflict-action-dropped).  That a pruned tuple is never needed is NOT proved here (the
+   initial state is not part of [problem]); it stays validated (graph_family of compcheck). *)
+Require Import UPV.Planning.Ground UPV.Compilers.LayerA_Ground UPV.Proofs.LayerA_Ground_proofs.
+
+Theorem C07_LA_ground_complete :
+  forall (smp : expr -> expr) (tuples : N -> list (list value)) (nm : N -> nat -> N) (P : problem) (G : state -> Prop),
+    smp_exact_on P G smp -> unique_ids (ground_compile smp tuples nm P) ->
+    (forall s aid a args t, G s -> lookup_action P aid = Some a -> spec_step false P s a args = Some t -> G t) ->
+    instances_ok smp tuples P ->
+    (forall s i a args, G s -> In (i, a) (p_actions P) -> In args (tuples i) ->
+       add_effs_ok [] [] (g_effects smp (zip_params (a_params a) args) (a_effs a)) = false ->
+       spec_step false P s a args = None) ->
+  forall (s0 : state) (pi : list (N * list value)), G s0 -> plan_in_tuples tuples pi ->
+    valid_plan false P s0 pi = true ->
+    exists pi', valid_plan false (ground_compile smp tuples nm P) s0 pi' = true /\
+                gt_map_back (ground_table smp tuples nm P) pi' = pi.
+Proof. exact ground_complete. Qed.
+Print Assumptions C07_LA_ground_complete.
+
+Example C07_LA_ground_complete_nonvacuous :
+  plan_in_tuples C06.LG.tup [(0%N, [VObj 2%N]); (0%N, [VObj 1%N])] /\
+  valid_plan false C06.LG.Pg C06.LG.sg0 [(0%N, [VObj 2%N]); (0%N, [VObj 1%N])] = true /\
+  valid_plan false (ground_compile C06.LA.idsmp C06.LG.tup C06.LG.nm C06.LG.Pg) C06.LG.sg0 [(31%N, []); (30%N, [])] = true /\
+  gt_map_back (ground_table C06.LA.idsmp C06.LG.tup C06.LG.nm C06.LG.Pg) [(31%N, []); (30%N, [])] =
+    [(0%N, [VObj 2%N]); (0%N, [VObj 1%N])].
+Proof.
+  split; [intros i args [H|[H|[]]]; inversion H; subst; cbn; auto|]. repeat split; vm_compute; reflexivity.
+Qed.
